@@ -204,6 +204,8 @@ fn replay_dispatch(prop: &str, case: &Value) -> Vec<(String, String, String, Str
 }
 
 fn run_check(prop: &str, tier: &str) -> i32 {
+    // C06 has its own per-case watchdog (20 s); every check gets the global progress monitor
+    start_progress_monitor(prop.to_string(), std::time::Duration::from_secs(if prop == "C06" { 600 } else { 300 }));
     let sink = Sink::new(prop, tier);
     let mut ev = Evidence::new(level_of(prop));
     match prop {
@@ -250,6 +252,11 @@ fn run_replay(prop: &str, path: &str) -> i32 {
         }
     };
     let rec: Value = serde_json::from_str(&txt).expect("replay file is JSON");
+    if rec["case"]["engine"].as_str() == Some("monitor") {
+        // a no-progress record carries no single case: its replay is the quick check itself
+        println!("replaying {} by re-running the quick check (no-progress record)", path);
+        return run_check(prop, "quick");
+    }
     let got = replay_dispatch(prop, &rec["case"]);
     println!("replaying {} (recorded key: {})", path, rec["key"]);
     let mut hit = false;
